@@ -779,6 +779,51 @@ pub fn run_c07(tier: Tier) -> i32 {
         });
     }
     fams.push(json!({"family": "in-search messages (isready, debug on/off, ucinewgame, ponderhit) first visible at poll k1, stop at poll k2 >= k1; stray stop/ponderhit while idle", "gos": stats.gos.load(Ordering::Relaxed) - before_msg, "secs": t0.elapsed().as_secs_f64()}));
+    // ---- (2d) long sessions: thousands of cheap cycles on one engine under the product's OWN poll
+    // rule (unscaled plan), so that state accumulated over a whole game (node counters, killer
+    // table ageing, stored PV) is carried across several poll boundaries
+    let t0 = Instant::now();
+    let before_long = stats.gos.load(Ordering::Relaxed);
+    {
+        let cycles: usize = if tier == Tier::Quick { 7_000 } else { 25_000 };
+        let variants: Vec<(usize, bool)> = vec![(0, false), (1, false), (2, true)];
+        par_map_fine(&variants, |&(v, with_newgame)| {
+            let mut s = Session::new(false);
+            let long_pos = [0usize, 1, 8];
+            let gos = ["go movetime 0", "go wtime 60000 btime 60000 winc 0 binc 0", "go depth 1", "go movetime 1"];
+            // warm-up: a search long enough to poll for real
+            s.line(&position_line(&positions[1].0, &positions[1].1));
+            let warm = run_go(&mut s, "go depth 5", Plan::virtual_rate(10), &none);
+            if warm.problem.is_some() {
+                rep.report("no_bestmove:long_session_warm_up".to_string(), json!({"kind": "go", "position": "kiwipete", "go": "go depth 5", "problem": warm.problem}));
+                return;
+            }
+            for c in 0..cycles {
+                let pi = long_pos[(c + v) % long_pos.len()];
+                let (base, moves, tag) = &positions[pi];
+                let pos_line = position_line(base, moves);
+                let mut root = base.clone();
+                for u in moves {
+                    let m = root.find_legal_uci(u).unwrap();
+                    root = root.make(&m);
+                }
+                if with_newgame && c % 1000 == 999 {
+                    s.line("ucinewgame");
+                }
+                s.line(&pos_line);
+                let go = gos[(c / 3 + v) % gos.len()];
+                let spec = GoSpec { line: go.to_string(), needs_stop: false, searchmoves: vec![] };
+                stats.gos.fetch_add(1, Ordering::Relaxed);
+                let out = run_go(&mut s, go, Plan::virtual_rate(1_000_000), &none);
+                c07_judge(&rep, &root, tag, &pos_line, &spec, "1ms/node", &out, 0, json!({"long_session_cycle": c, "warm_up": "kiwipete go depth 5", "cycles": cycles, "ucinewgame_every_1000": with_newgame}));
+                if out.problem.is_some() || out.best.is_none() {
+                    break; // one report per session is enough
+                }
+            }
+            s.quit();
+        });
+    }
+    fams.push(json!({"family": "long sessions (thousands of zero/tiny-budget cycles after a long warm-up search, product's own poll rule)", "gos": stats.gos.load(Ordering::Relaxed) - before_long, "secs": t0.elapsed().as_secs_f64()}));
     // ---- (3) clock schedules: all jump pairs over the clock reads of a run
     let t0 = Instant::now();
     let mut jump_runs = 0u64;
